@@ -9,6 +9,7 @@ Serialisation of numbers (cssparser ToCss) is outside the claim.
 """
 import json
 import z3
+from mirsym.core import zstr
 
 from lib import common, smt
 from lib.common import Result, log
@@ -100,7 +101,7 @@ def main(tier):
         # position provenance: the emitted token carries the position of the input token
         pos_same = z3.And(position.fields[0] == s['pos'].fields[0], position.fields[1] == s['pos'].fields[1])
         queries.append(('position', exe.base + p.pc + [z3.Not(pos_same)], 'position', p, None))
-        converted = z3.is_string_value(t_unit) and t_unit.as_string() == 'vw'
+        converted = z3.is_string_value(t_unit) and zstr(t_unit) == 'vw'
         if converted:
             seen_convert = True
             # (a) the converting branch is taken only for rpx, has_sign passes through, src carries the original
@@ -221,7 +222,7 @@ def confirm(res, exe, desc, cls, asserts, model, s):
         res.inconc('query %s is sat in the model but the deviation is not observable through from_css (6-digit print)' % desc)
         return
     # gate / pass-through / src / position: replay a unit through the real code and compare the text
-    unit = model.eval(s['unit'], model_completion=True).as_string()
+    unit = zstr(model.eval(s['unit'], model_completion=True))
     if not re.fullmatch(r'[a-zA-Z][a-zA-Z0-9]*', unit or ''):
         unit = 'px' if cls != 'gate' else 'rpx'
     for u in (unit, 'rpx', 'px', 'RPX', 'rp', 'rpxx', 'vw', 'em'):
@@ -250,7 +251,7 @@ def validate(res, exe, returned, s):
                                             [d == 0 for d in p.env.get('deltas', ())])
             if verdict == 'sat':
                 tv = real_of(model, tok.fields[1])
-                tu = model.eval(tok.fields[3], model_completion=True).as_string()
+                tu = zstr(model.eval(tok.fields[3], model_completion=True))
                 pred = (tv, tu)
         m = re.match(r'a\{b:(-?[0-9.eE+\-]+)([a-zA-Z]+)\}', out.get('normal', ''))
         if pred is None or not m:
